@@ -169,7 +169,7 @@ func gluonPath(fr []string) string {
 
 func runC19(ctx *common.Ctx) error {
 	res := ctx.Res
-	res.Rule = "SEARCH (not proof): stress scenarios under the race detector; one evaluation = one scenario (two of them: async.QueuedChannel queues closed while readers and producers are busy, with and without the race detector; the others: 11 concurrent sessions of 2 users on shared and own mailboxes, random commands, connector updates, session ends in every protocol state, RemoveUser and Close racing with all of it); non-trivial = distinct scenarios in which RemoveUser and Close both ran while sessions were active (always) and in which the teardown variants differ (late dial, files removed, connector pushing)"
+	res.Rule = "SEARCH (not proof): stress scenarios under the race detector; one evaluation = one scenario (two of them: async.QueuedChannel queues closed while readers and producers are busy and 24 goroutines reading/writing/deleting two literals through store.WriteControlledStore, with and without the race detector; the others: 11 concurrent sessions of 2 users on shared and own mailboxes, random commands, connector updates, session ends in every protocol state, RemoveUser and Close racing with all of it); non-trivial = distinct scenarios in which RemoveUser and Close both ran while sessions were active (always) and in which the teardown variants differ (late dial, files removed, connector pushing)"
 	if ctx.Replay != "" {
 		if b, err := os.ReadFile(ctx.Replay); err == nil {
 			var rp struct {
@@ -213,7 +213,9 @@ func runC19(ctx *common.Ctx) error {
 		scen := map[string]interface{}{"queue_stress": true, "seed": seed, "queues": q.n, "race_detector": q.race,
 			"how": fmt.Sprintf("c19child -queues %d -queues-only -seed %d -out DIR (built %s -race)", q.n, seed, map[bool]string{true: "with", false: "without"}[q.race])}
 		ctx.Current(fmt.Sprintf("queue stress seed=%d n=%d race=%v", seed, q.n, q.race), scen)
-		cmd := exec.Command(q.bin, "-queues", fmt.Sprint(q.n), "-queues-only", "-seed", fmt.Sprint(seed), "-out", dir)
+		wcsMs := ctx.Budget(800, 5000)
+		scen["write_controlled_store_ms"] = wcsMs
+		cmd := exec.Command(q.bin, "-queues", fmt.Sprint(q.n), "-wcs-ms", fmt.Sprint(wcsMs), "-queues-only", "-seed", fmt.Sprint(seed), "-out", dir)
 		cmd.Env = append(os.Environ(), "GORACE=halt_on_error=0 exitcode=0 history_size=3 log_path="+filepath.Join(dir, "race"))
 		outb, werr := cmd.CombinedOutput()
 		res.Evaluations++
@@ -252,6 +254,7 @@ func runC19(ctx *common.Ctx) error {
 			}
 		}
 		res.Distribution["queues-closed"] += cr.Stats["queues-closed"]
+		res.Distribution["wcs-operations"] += cr.Stats["wcs-operations"]
 		res.Nontrivial(fmt.Sprintf("queue-stress race=%v seed=%d", q.race, seed))
 	}
 	os.Remove(plain)
